@@ -11,11 +11,11 @@
 EXTENDS Naturals, Integers, Sequences, FiniteSets, TLC, Json, IOUtils
 Cases == ndJsonDeserialize(IOEnv.CASES)
 CONSTANTS NT, Reqs                  \* all cases of one judge run use NT threads x Reqs requests
-VARIABLES tid, l, counter, holder, pc, nxt, tmp, done, sent, own, failing, lost, verdict
-vars == <<tid, l, counter, holder, pc, nxt, tmp, done, sent, own, failing, lost, verdict>>
+VARIABLES tid, l, counter, holder, pc, nxt, tmp, done, sent, own, failing, lost, rejected, verdict
+vars == <<tid, l, counter, holder, pc, nxt, tmp, done, sent, own, failing, lost, rejected, verdict>>
 C == Cases[tid]
 Threads == 1 .. NT
-R == INSTANCE ReqId WITH OwnChoices <- {{}}, FailChoices <- {{}}, Start <- 0
+R == INSTANCE ReqId WITH OwnChoices <- {{}}, FailChoices <- {{}}, RejectChoices <- {{}}, Start <- 0
 OwnId == own
 
 Init == /\ tid \in 1 .. Len(Cases) /\ l = 1 /\ verdict = "run"
@@ -26,6 +26,7 @@ Init == /\ tid \in 1 .. Len(Cases) /\ l = 1 /\ verdict = "run"
         /\ own = { <<Cases[tid].own[i][1], Cases[tid].own[i][2]>> : i \in 1 .. Len(Cases[tid].own) }
         /\ failing = { <<Cases[tid].fail[i][1], Cases[tid].fail[i][2]>> : i \in 1 .. Len(Cases[tid].fail) }
         /\ lost = {}
+        /\ rejected = { <<Cases[tid].rej[i][1], Cases[tid].rej[i][2]>> : i \in 1 .. Len(Cases[tid].rej) }
 
 E == C.ev[l]
 IsEvent(k) == verdict = "run" /\ l <= Len(C.ev) /\ E.k = k /\ l' = l + 1 /\ UNCHANGED <<tid, verdict>>
@@ -35,6 +36,7 @@ TStore == IsEvent("store") /\ R!WriteInc(E.t) /\ counter' = E.v
 TAcq   == IsEvent("acq") /\ R!Acquire(E.t)
 TRel   == IsEvent("rel") /\ R!Release(E.t)
 TFail  == IsEvent("fail") /\ R!Fail(E.t)
+TRej   == IsEvent("reject") /\ R!Reject(E.t)
 TSend  == IsEvent("send") /\ R!Send(E.t) /\ (~(<<E.t, done[E.t] + 1>> \in OwnId) => E.v = nxt[E.t])
 
 (* the A-spec on what reached the opener, evaluated once on the whole trace *)
@@ -45,12 +47,12 @@ AOK == /\ \A i, j \in 1 .. Len(Gen) : i # j => Gen[i].v # Gen[j].v
        /\ { Gen[i].v : i \in 1 .. Len(Gen) } \subseteq C.start .. (C.start + Len(Gen) + NFail - 1)   \* no gaps but the lost numbers
        /\ \A i \in 1 .. Len(Sends) : Sends[i].v # -2
        /\ NFail = Len(C.fail)
-       /\ Len(Gen) = NT * Reqs - Len(C.own) - NFail
+       /\ Len(Gen) = NT * Reqs - Len(C.own) - NFail - Len(C.rej)        \* a refused request consumes nothing
 
-Finish == /\ verdict = "run" /\ (l > Len(C.ev) \/ ~ENABLED (TLoad \/ TStore \/ TAcq \/ TRel \/ TSend \/ TFail))
+Finish == /\ verdict = "run" /\ (l > Len(C.ev) \/ ~ENABLED (TLoad \/ TStore \/ TAcq \/ TRel \/ TSend \/ TFail \/ TRej))
           /\ verdict' = IF ~AOK THEN "REJECT-IDS" ELSE IF l <= Len(C.ev) THEN "DRIFT" ELSE "ACCEPT"
           /\ PrintT(<<verdict', tid, l>>)
-          /\ UNCHANGED <<tid, l, counter, holder, pc, nxt, tmp, done, sent, own, failing, lost>>
-Next == TLoad \/ TStore \/ TAcq \/ TRel \/ TSend \/ TFail \/ Finish
+          /\ UNCHANGED <<tid, l, counter, holder, pc, nxt, tmp, done, sent, own, failing, lost, rejected>>
+Next == TLoad \/ TStore \/ TAcq \/ TRel \/ TSend \/ TFail \/ TRej \/ Finish
 Spec == Init /\ [][Next]_vars
 =============================================================================
